@@ -388,7 +388,7 @@ func forLoopsRuleSSA(r *Run) {
 			addBad(fmt.Sprintf("block evaluated %d times per iteration", nBlock))
 			continue
 		}
-		if !isNodeField(p.resolve(blockCall.Call.Args[1]), "Block") {
+		if x, ok := isFieldLoadOf(p.resolve(blockCall.Call.Args[1]), astPath, "ForExpression", "Block"); !ok || (x != node && p.resolve(x) != node) {
 			addBad("evaluates something other than node.Block")
 		}
 		// bindings before the evaluation, none after
